@@ -434,6 +434,14 @@ func (e *Env) load(addr ssa.Value, at ssa.Instruction, typ types.Type) *Term {
 	if !ok {
 		return &Term{Op: "unknown", Name: "load-off-path", Typ: typ}
 	}
+	if isAlloc && writtenByClosure(alloc) {
+		// captured by reference and written inside a closure: its value is not a function of this path
+		t := &Term{Op: "shared", Name: allocName(alloc), ID: e.prefix + alloc.Name(), Typ: typ}
+		for _, f := range lp {
+			t = projField(t, f)
+		}
+		return t
+	}
 	if isAlloc {
 		// scan the path backwards for the last store / clobbering call
 		for bi := abi; bi >= 0; bi-- {
@@ -1113,3 +1121,51 @@ func (p *Prog) Binding(fv *ssa.FreeVar) ssa.Value {
 
 // ProjField projects a named field out of a term (struct literals are opened).
 func ProjField(t *Term, f string) *Term { return projField(t, f) }
+
+// writtenByClosure reports whether a local is captured by a closure that stores into it.
+func writtenByClosure(a *ssa.Alloc) bool {
+	if a.Referrers() == nil {
+		return false
+	}
+	var writes func(v ssa.Value, depth int) bool
+	writes = func(v ssa.Value, depth int) bool {
+		if depth > 4 || v.Referrers() == nil {
+			return false
+		}
+		for _, r := range *v.Referrers() {
+			switch x := r.(type) {
+			case *ssa.Store:
+				if x.Addr == v {
+					return true
+				}
+			case *ssa.FieldAddr:
+				if writes(x, depth+1) {
+					return true
+				}
+			case *ssa.IndexAddr:
+				if writes(x, depth+1) {
+					return true
+				}
+			case *ssa.MakeClosure:
+				fn := x.Fn.(*ssa.Function)
+				for i, b := range x.Bindings {
+					if b == v && writes(fn.FreeVars[i], depth+1) {
+						return true
+					}
+				}
+			}
+		}
+		return false
+	}
+	for _, r := range *a.Referrers() {
+		if mc, ok := r.(*ssa.MakeClosure); ok {
+			fn := mc.Fn.(*ssa.Function)
+			for i, b := range mc.Bindings {
+				if b == ssa.Value(a) && writes(fn.FreeVars[i], 0) {
+					return true
+				}
+			}
+		}
+	}
+	return false
+}
